@@ -167,3 +167,148 @@ fn c13_from_errors_n17() {
 fn c13_from_errors_wrap_witness() {
     c13_from_errors_body::<3>(u32::MAX);
 }
+
+// ================================================================================================
+// C13: the bottom-up search over partition orders, with the table builder as a callee contract
+// ================================================================================================
+
+static mut STUB_TABLES: [[u32; 16]; 4] = [[0; 16]; 4];
+static mut STUB_TABLE_COUNT: usize = 0;
+
+/// contract of `PrcBitTable::from_errors`: SOME cost table with entries >= 4 (its own parameter
+/// bits) and below the saturation bound; recorded so that the caller's result can be compared with
+/// a brute-force optimum over exactly these tables.  (Exactness of the real tables: c13_from_errors_*.)
+fn contract_from_errors(_errors: &[u32], _offset: usize) -> PrcBitTable {
+    let a: [u32; 16] = kani::any();
+    let mut i = 0;
+    while i < 16 {
+        kani::assume(4 <= a[i] && a[i] <= MAX_P_TO_BITS);
+        i += 1;
+    }
+    unsafe {
+        if STUB_TABLE_COUNT < 4 {
+            STUB_TABLES[STUB_TABLE_COUNT] = a;
+        }
+        STUB_TABLE_COUNT += 1;
+    }
+    PrcBitTable {
+        p_to_bits: simd::u32x16::from_array(a),
+    }
+}
+
+fn table_min(t: &[u32; 16], max_p: usize) -> u64 {
+    let mut best = u64::MAX;
+    let mut p = 0;
+    while p < 16 {
+        if p <= max_p && (t[p] as u64) < best {
+            best = t[p] as u64;
+        }
+        p += 1;
+    }
+    best
+}
+
+fn merged(a: &[u32; 16], b: &[u32; 16]) -> [u32; 16] {
+    let mut m = [0u32; 16];
+    let mut p = 0;
+    while p < 16 {
+        let v = a[p] as u64 + b[p] as u64 - 4;
+        m[p] = if v < MAX_P_TO_BITS as u64 { v as u32 } else { MAX_P_TO_BITS };
+        p += 1;
+    }
+    m
+}
+
+/// `PrcParameterFinder::find` on a block of 128 samples (finest order 1: two partitions of 64):
+/// the returned (order, parameters, code_bits) is the cheapest over {order 1 with independently
+/// optimal parameters, order 0 with the optimal single parameter}, code_bits is that cost, every
+/// parameter is <= max_p, the parameter count is 2^order -- starting from a DIRTY finder (C10).
+//@ unit props=C13,C10,C02 tier=quick kind=bounded timeout=1800 funcs="PrcParameterFinder::find; rice::eval_partitions; rice::merge_partitions; PrcBitTable::merge; PrcBitTable::minimizer" stubs="PrcBitTable::from_errors -> some table with entries in [4, 2^28) (c13_from_errors_*)" bound="block 128 (two finest partitions), tables fully symbolic"
+#[kani::proof]
+#[kani::unwind(130)]
+#[kani::stub(PrcBitTable::from_errors, contract_from_errors)]
+fn c13_find_two_partitions() {
+    let signal = [0i32; 128];
+    let max_p: usize = kani::any();
+    kani::assume(max_p <= 14);
+    let mut finder = PrcParameterFinder::default();
+    // dirty scratch from a previous call
+    finder.ps = vec![9, 9, 9];
+    finder.min_ps = vec![7, 7, 7, 7];
+    finder.errors = vec![0xdead_beef; 3];
+    let r = finder.find(&signal, 0, max_p);
+    let (t0, t1, n) = unsafe { (STUB_TABLES[0], STUB_TABLES[1], STUB_TABLE_COUNT) };
+    assert!(n == 2);
+    let cost1 = table_min(&t0, max_p) + table_min(&t1, max_p);
+    let m = merged(&t0, &t1);
+    let cost0 = table_min(&m, max_p);
+    let best = if cost0 < cost1 { cost0 } else { cost1 };
+    assert!(r.code_bits as u64 == best);
+    assert!(r.order <= 1 && r.ps.len() == 1usize << r.order);
+    if r.order == 1 {
+        assert!(cost1 <= cost0);
+        assert!(r.ps[0] as usize <= max_p && r.ps[1] as usize <= max_p);
+        assert!(t0[r.ps[0] as usize] as u64 == table_min(&t0, max_p));
+        assert!(t1[r.ps[1] as usize] as u64 == table_min(&t1, max_p));
+    } else {
+        assert!(cost0 < cost1);
+        assert!(r.ps[0] as usize <= max_p);
+        assert!(m[r.ps[0] as usize] as u64 == cost0);
+    }
+    kani::cover!(r.order == 0);
+    kani::cover!(r.order == 1);
+}
+
+/// contract of `from_errors` restricted to tables whose only competitive parameters are 0 and 1
+/// (all other entries saturated): enough to make the ORDER search fully symbolic while keeping the
+/// parameter dimension small.
+fn contract_from_errors_p01(_errors: &[u32], _offset: usize) -> PrcBitTable {
+    let mut a = [MAX_P_TO_BITS; 16];
+    let x: [u32; 2] = kani::any();
+    kani::assume(4 <= x[0] && x[0] < (1 << 20) && 4 <= x[1] && x[1] < (1 << 20));
+    a[0] = x[0];
+    a[1] = x[1];
+    unsafe {
+        if STUB_TABLE_COUNT < 4 {
+            STUB_TABLES[STUB_TABLE_COUNT] = a;
+        }
+        STUB_TABLE_COUNT += 1;
+    }
+    PrcBitTable {
+        p_to_bits: simd::u32x16::from_array(a),
+    }
+}
+
+/// `find` on a block of 256 samples (finest order 2: four partitions, two merge levels): the
+/// result is the cheapest of orders 2, 1 and 0 -- every order is evaluated, none is pruned.
+//@ unit props=C13 tier=thorough kind=bounded timeout=3600 funcs="PrcParameterFinder::find; rice::eval_partitions; rice::merge_partitions" stubs="PrcBitTable::from_errors -> some table whose parameters 0 and 1 have arbitrary costs in [4, 2^20) and all others are saturated" bound="block 256 (four finest partitions, orders 2/1/0)"
+#[kani::proof]
+#[kani::unwind(260)]
+#[kani::stub(PrcBitTable::from_errors, contract_from_errors_p01)]
+fn c13_find_four_partitions() {
+    let signal = [0i32; 256];
+    let mut finder = PrcParameterFinder::default();
+    let r = finder.find(&signal, 0, 14);
+    let (t, n) = unsafe { (STUB_TABLES, STUB_TABLE_COUNT) };
+    assert!(n == 4);
+    let cost2 = table_min(&t[0], 14) + table_min(&t[1], 14) + table_min(&t[2], 14) + table_min(&t[3], 14);
+    let m01 = merged(&t[0], &t[1]);
+    let m23 = merged(&t[2], &t[3]);
+    let cost1 = table_min(&m01, 14) + table_min(&m23, 14);
+    let m = merged(&m01, &m23);
+    let cost0 = table_min(&m, 14);
+    let mut best = cost2;
+    if cost1 < best {
+        best = cost1;
+    }
+    if cost0 < best {
+        best = cost0;
+    }
+    assert!(r.code_bits as u64 == best);
+    assert!(r.order <= 2 && r.ps.len() == 1usize << r.order);
+    let chosen = if r.order == 2 { cost2 } else if r.order == 1 { cost1 } else { cost0 };
+    assert!(chosen == best);
+    kani::cover!(r.order == 0);
+    kani::cover!(r.order == 1);
+    kani::cover!(r.order == 2);
+}
